@@ -27,12 +27,19 @@ EXPECTED_PROBES = ["returned", "refused", "ilp_pulp", "checked_rankings", "mutat
 def gen_case(st, tier, env):
     w, k = st.workload, st.knobs
     big = k.random() < 0.25
-    ds = gen.gen_dataset(w, n_max=8 if big else 5, m_max=6)
+    cyclic = k.random() < 0.12
+    if cyclic:
+        # several non-trivial components (and, for str names, a whole block of integer-like names)
+        ds = gen.gen_cyclic_blocks_dataset(w, sizes=w.choice([[3], [3, 2], [3, 3], [4], [4, 2]]))
+    else:
+        ds = gen.gen_dataset(w, n_max=8 if big else 5, m_max=6)
     scheme = gen.gen_scheme(w, dyadic=k.random() < 0.7)
     n_univ = len({e for r in ds["rankings"] for b in r for e in b})
     calls = []
     for _ in range(k.choice([3, 4, 5, 6])):
         a = gen.gen_alg(w, env, heavy_ok=n_univ <= 6)
+        if cyclic and k.random() < 0.5:
+            a = {"alg": "ParCons", "aux": dict(w.choice(gen.AUXILIARIES)), "bound": k.choice([0, 1, 2, 3])}
         calls.append({"alg": a, "one": k.choice([True, False, None]), "sched": gen.gen_sched(st.schedule)})
     do_sweep = tier == "thorough" and n_univ <= 5 and k.random() < 0.3
     # history dimension: the same Dataset object is edited in place between calls (a dataset obtained by removals is
